@@ -23,6 +23,7 @@ structure ScanInv (dev total : Nat) (st : ScanSt) (p : Nat) : Prop where
   disj  : ∀ x y, Vis st.live x → Vis st.live y → x.key ≠ y.key →
             x.sector + x.blocks ≤ y.sector ∨ y.sector + y.blocks ≤ x.sector
   le    : DS ≤ st.lastEnd ∧ st.lastEnd ≤ p
+  tot   : st.lastEnd ≤ total
 
 theorem releaseFsm_ok {f : Fsm.State} {a n : Nat} (hi : Fsm.Inv f) (hv : C06.ReleaseValid f a n) :
     ∃ f', releaseFsm f a n = .ok f' ∧ Fsm.Inv f' ∧ f'.deviceSize = f.deviceSize ∧
@@ -77,7 +78,7 @@ theorem recStep_ok {img : Image} {v total dev : Nat} {o : Opts} {journal : List 
     simp only []
     by_cases hnewer : ex.ts > m.ts
     · simp only [hnewer, ↓reduceIte]
-      exact ⟨_, rfl, ⟨hinv.inv, hinv.dev, hinv.free, hinv.ext, hinv.disj, ⟨hinv.le.1, by have := hinv.le.2; dsimp only; omega⟩⟩⟩
+      exact ⟨_, rfl, ⟨hinv.inv, hinv.dev, hinv.free, hinv.ext, hinv.disj, ⟨hinv.le.1, by have := hinv.le.2; dsimp only; omega⟩, hinv.tot⟩⟩
     · simp only [hnewer, ↓reduceIte]
       have hkey := findLive_key hex
       have hvis : Vis st.live ex := by unfold Vis; rw [hkey]; exact hex
@@ -97,7 +98,7 @@ theorem recStep_ok {img : Image} {v total dev : Nat} {o : Opts} {journal : List 
       obtain ⟨f2, hr2, hi2, hdev2, hcov2⟩ := gap_release (p := p) hi1 (by rw [hdev1, hinv.dev]) hd0 htot h64 hfree1 hinv.le.1 (by omega)
       rw [hr2]
       simp only []
-      refine ⟨_, rfl, ⟨hi2, hdev2, ?_, ?_, ?_, ⟨by dsimp only; omega, Nat.le_refl _⟩⟩⟩
+      refine ⟨_, rfl, ⟨hi2, hdev2, ?_, ?_, ?_, ⟨by dsimp only; omega, Nat.le_refl _⟩, hb⟩⟩
       · dsimp only
         intro b hb
         have hb' : covers st.fsm.runs b ∨ (ex.sector ≤ b ∧ b < ex.sector + ex.blocks) ∨ (st.lastEnd ≤ b ∧ b < p) := by
@@ -142,7 +143,7 @@ theorem recStep_ok {img : Image} {v total dev : Nat} {o : Opts} {journal : List 
     obtain ⟨f2, hr2, hi2, hdev2, hcov2⟩ := gap_release (p := p) hinv.inv hinv.dev hd0 htot h64 hfree0 hinv.le.1 (by omega)
     rw [hr2]
     simp only []
-    refine ⟨_, rfl, ⟨hi2, hdev2, ?_, ?_, ?_, ⟨by dsimp only; omega, Nat.le_refl _⟩⟩⟩
+    refine ⟨_, rfl, ⟨hi2, hdev2, ?_, ?_, ?_, ⟨by dsimp only; omega, Nat.le_refl _⟩, hb⟩⟩
     · dsimp only
       intro b hb
       have hlt : b < p := by
@@ -176,11 +177,12 @@ theorem recStep_ok {img : Image} {v total dev : Nat} {o : Opts} {journal : List 
 
 theorem ScanInv.mono {dev total : Nat} {st st2 : ScanSt} {p q : Nat} (h : ScanInv dev total st p) (hpq : p ≤ q)
     (hf : st2.fsm = st.fsm) (hl : st2.live = st.live) (he : st2.lastEnd = st.lastEnd) : ScanInv dev total st2 q := by
-  refine ⟨by rw [hf]; exact h.inv, by rw [hf]; exact h.dev, ?_, ?_, ?_, ?_⟩
+  refine ⟨by rw [hf]; exact h.inv, by rw [hf]; exact h.dev, ?_, ?_, ?_, ?_, ?_⟩
   · rw [hf, hl, he]; exact h.free
   · rw [hl, he]; exact h.ext
   · rw [hl]; exact h.disj
   · rw [he]; exact ⟨h.le.1, by have := h.le.2; omega⟩
+  · rw [he]; exact h.tot
 
 theorem markSt_fields (img : Image) (o : Opts) (p r : Nat) (st : ScanSt) :
     (markSt img o p r st).fsm = st.fsm ∧ (markSt img o p r st).live = st.live ∧ (markSt img o p r st).lastEnd = st.lastEnd := by
@@ -191,15 +193,15 @@ theorem scan_rep_tiled_ok {img : Image} {v total dev : Nat} {o : Opts} {journal 
     {info : Gen → RecMeta} {d : Disk} (hro : o.readOnly = false) (hrep : Rep img v DS total info d)
     (hd0 : 0 < dev) (htot : dev / Fsm.BS = total) (h64 : total < 2 ^ 64) :
     ∀ (fuel p : Nat) (L : List Rec) (st : ScanSt), total - p ≤ fuel → DS ≤ p → TiledBy d total L p →
-      ScanInv dev total st p → ∃ st', scan img v total o journal p st = .ok st' := by
+      ScanInv dev total st p → ∃ st', scan img v total o journal p st = .ok st' ∧ ∃ q, ScanInv dev total st' q := by
   intro fuel
   induction fuel with
   | zero =>
-    intro p L st hf hlo ht _
+    intro p L st hf hlo ht hinv0
     cases ht with
     | done hp =>
       have : ¬ p < total := by omega
-      exact ⟨st, by rw [scan]; simp [this]⟩
+      exact ⟨st, by rw [scan]; simp [this], p, hinv0⟩
     | free hp _ _ _ => omega
     | recd hint hb _ => have := hint.1; omega
   | succ fuel ih =>
@@ -207,7 +209,7 @@ theorem scan_rep_tiled_ok {img : Image} {v total dev : Nat} {o : Opts} {journal 
     cases ht with
     | done hp =>
       have : ¬ p < total := by omega
-      exact ⟨st, by rw [scan]; simp [this]⟩
+      exact ⟨st, by rw [scan]; simp [this], p, hinv⟩
     | free hp hfl hmk ht' =>
       have hr := hrep p hlo hp
       rcases hfl with hz | ⟨r, hm⟩
@@ -238,8 +240,8 @@ theorem scan_rep_tiled_ok {img : Image} {v total dev : Nat} {o : Opts} {journal 
       exact ih (p + n) L' st2 (by have := hint.1; omega) (by omega) ht' hinv2
 
 /-- the state recovery starts the scan in -/
-theorem scanInv_init (dev total : Nat) : ScanInv dev total { fsm := Fsm.setDeviceSize Fsm.new dev } DS := by
-  refine ⟨?_, rfl, ?_, ?_, ?_, ⟨Nat.le_refl _, Nat.le_refl _⟩⟩
+theorem scanInv_init (dev total : Nat) (hds : DS ≤ total) : ScanInv dev total { fsm := Fsm.setDeviceSize Fsm.new dev } DS := by
+  refine ⟨?_, rfl, ?_, ?_, ?_, ⟨Nat.le_refl _, Nat.le_refl _⟩, hds⟩
   · exact C06.inv_setSize_new dev
   · intro b hb
     obtain ⟨r, hr, _⟩ := hb
